@@ -168,6 +168,8 @@ class RollWorld:
         self.n_restarts = 0
         self.head_proc = None
         self.sched = None           # set by run_fsgran
+        self.fsgran = bool(knobs.get('fsgran'))
+        self.pending = None         # fsgran: record handed to write() whose bytes have not reached the file yet
         self.pat = None
         self.rl = None
 
@@ -402,6 +404,10 @@ class RollWorld:
                'subus_ts': bool((mf is not None and mf.subus) or (pf is not None and pf.subus))}
         if self.prop == 'C14':
             sig = {'reader': rd.kind, 'pos_file_deleted': sig['pos_file_deleted'], 'across_restart': False}
+        if self.fsgran:
+            sig['gran'] = 'fs'
+            if self.k.get('short_write'):
+                sig['short_write'] = True
         return sig
 
     # -- the reader oracle ---------------------------------------------------------------------------------------------------------
@@ -567,6 +573,8 @@ class RollWorld:
         self.fs.proc = 'w'
         self.created_in_op = None
         had_open = self.cur is not None and self.fs.has_writer(self.cur.ino, 'w')
+        if self.fsgran:
+            return self.op_write_fsgran(w, op, val, raw, back, ts, kind, subus)
         try:
             ret = w.obj.write(val, ts)
         except Exception as exc:
@@ -591,6 +599,51 @@ class RollWorld:
         mf.add(raw, back, op['id'])
         self.probe('writes')
         self.after_write()
+
+    def op_write_fsgran(self, w, op, val, raw, back, ts, kind, subus):
+        """At file-system granularity a reader can see the bytes before write() returns, so the record enters the model
+        at the instant its (first) bytes reach the file (hook on_fs_write)."""
+        self.pending = (raw, back, op['id'], bool(kind), subus)
+        try:
+            ret = w.obj.write(val, ts)
+        except Exception as exc:
+            self.observe_exc('write', exc)
+            self.pending = None
+            return
+        pend, self.pending = self.pending, None
+        self.log('write', op['id'], len(raw), ret)
+        if self.broken:
+            return
+        if pend is not None and len(raw):
+            self.probe('write_failed')
+            return
+        self.probe('writes')
+        self.after_write()
+
+    def on_fs_write(self, ino, pos, data, proc):
+        pend = self.pending
+        if pend is None or proc != 'w':
+            return
+        mf = self.by_ino.get(ino)
+        if mf is None:
+            return
+        raw, back, rid, given, subus = pend
+        self.pending = None
+        if given and mf is self.created_in_op:
+            mf.subus = subus
+        if not self.broken:
+            if pos != mf.size:
+                self.harness_errors.append(f'fsgran: write landed at {pos}, model size {mf.size}')
+            mf.add(raw, back, rid)
+
+    def exec_op_fsgran(self, op, task):
+        kind = op['op']
+        if kind != 'clock' and task == 'w':
+            self.tick()
+        if kind in ('read', 'read_block'):
+            self.op_read(op, kind)
+        else:
+            getattr(self, self.DISPATCH[kind])(op)
 
     def op_read(self, op, opname):
         rd = self.readers.get(op.get('r', 'r0'))
@@ -765,8 +818,9 @@ class RollWorld:
         self.probe('crashes')
         if rd.saving is not None:
             self.probe('crashes_in_save')
-        rd.floor = rd.saved if rd.saved is not None else (0, 0)
-        rd.cands = [c for c in (rd.saved if rd.saved is not None else (0, 0), rd.saving) if c is not None]
+        if not (rd.down and rd.cands):     # (a crash while restarting keeps the candidates of the first crash)
+            rd.floor = rd.saved if rd.saved is not None else (0, 0)
+            rd.cands = [c for c in (rd.saved if rd.saved is not None else (0, 0), rd.saving) if c is not None]
         rd.saving = None
         rd.obj = None
         rd.down = True
@@ -801,6 +855,7 @@ class RollWorld:
                 return
             rd.pos = (0, 0)
             rd.saved = (0, 0)
+            rd.floor = (0, 0)        # the harness made it start over: re-delivery from here on is its own doing
             rd.delivered = []
             return
         self.fs.proc = rd.proc
@@ -1123,6 +1178,9 @@ def run_case_c13(seed, replay=None, tier='quick'):
     else:
         ch = ChoiceSource(seed)
         knobs = gen_knobs_c13(ch, tier)
+        if tier == 'thorough' and ch.chance('gen', 1, 3):
+            knobs['fsgran'] = True
+            knobs['short_write'] = ch.chance('gen', 1, 3)
         history = gen_history_c13(ch, knobs)
     if knobs.get('fsgran'):
         return run_fsgran(seed, ch, knobs, history)
@@ -1259,11 +1317,16 @@ def run_case_c14(seed, replay=None, tier='quick'):
 # =========================================================================================================================
 
 def run_fsgran(seed, ch, knobs, history):
-    """The writer's operations and one rdonly reader's operations run as two scheduler tasks; every file-system call is
-    a yield point, so the reader can run between any two FS calls of a write (open / write / close / unlink of a
-    roll-over with pruning) and vice versa. Exceptions that escape an API call at this granularity are observations.
-    With knobs['short_write'] a flushed record may reach the file in two write calls."""
-    from sim.core import Scheduler, SimKilled, SimAbort
+    """The writer's operations (write, close+reopen of the writer, clock, external delete) and the operations of the
+    rdonly reader r0 (read, read_block, seek, tell, refresh) run as two scheduler tasks; every file-system call is a
+    yield point, so the reader can run between any two FS calls of a write (open / write / close / unlink of a roll-over
+    with pruning) and vice versa; the order is drawn from the choice source (stream 'sched') and replayed from it.
+    Operations of other parties in the history are ignored here. Exceptions that escape an API call at this granularity
+    are observations. With knobs['short_write'] a write(2) of the writer may transfer only part of its bytes, the rest
+    following in a second call (the `short_write` fault)."""
+    from sim.core import Scheduler
+    knobs = dict(knobs)
+    knobs['flush'] = True
     world = RollWorld('C13', knobs, history)
     harness = world.harness_errors
     sched = Scheduler(ch, max_steps=200_000)
@@ -1271,21 +1334,22 @@ def run_fsgran(seed, ch, knobs, history):
     try:
         world.step = -1
         world.setup_parties()
+        world.fs.on_write = world.on_fs_write
         if knobs.get('short_write'):
             def short(handle, n):
                 if handle.proc != 'w' or not ch.chance('short', 1, 3):
                     return None
                 return 1 + ch.draw('short', n - 1)
             world.fs.short_write = short
-        w_ops = [(i, op) for i, op in enumerate(history) if op['op'] in ('write', 'clock', 'ext_delete')
-                 or op.get('r') == 'w']
-        r_ops = [(i, op) for i, op in enumerate(history) if op.get('r') == 'r0' and op['op'] != 'reopen']
-        lock = {'busy': None}
+        w_ops = [(i, op) for i, op in enumerate(history)
+                 if op['op'] in ('write', 'clock', 'ext_delete') or (op['op'] == 'reopen' and op.get('r') == 'w')]
+        r_ops = [(i, op) for i, op in enumerate(history)
+                 if op.get('r') == 'r0' and op['op'] in ('read', 'read_block', 'seek', 'tell', 'refresh')]
 
         def runner(name, ops):
             def main():
                 for i, op in ops:
-                    sched.block(label=f'{name}:next')
+                    sched.block(label=f'{name}:op')
                     world.step = i
                     world.exec_op_fsgran(op, name)
             return main
@@ -1297,6 +1361,9 @@ def run_fsgran(seed, ch, knobs, history):
         sched.spawn(pr, 'reader', runner('r', r_ops))
         sched.run()
         world.sched = None
+        for t in sched.tasks:
+            if t.exc is not None and t.exc not in ('killed', 'aborted'):
+                harness.append(f'task {t.name} died: {t.exc!r}')
         sched.teardown()
         harness.extend(sched.errors)
         world.step = len(history)
@@ -1314,6 +1381,8 @@ def run_fsgran(seed, ch, knobs, history):
         world.sched = None
         world.unbind()
     world.digest.add('sched', sched.digest.hex())
+    world.probe('fsgran_cases')
+    world.probe('sched_steps', sched.step)
     nontrivial = world.probes.get('records_delivered', 0) > 0 and len(world.files) >= 2
     extra = {}
     if world.violations or harness:
